@@ -285,6 +285,25 @@ claim("C19", "proof", "Lean 4 theorems about the coordinate-system bases, the co
       "the model (the code raises NotImplementedError); one known finding (cylindrical component order).",
       "DESIGN.md section 6, C19; notes/C19.md")
 
+claim("C04", "proof", "Lean 4 theorems: cache soundness for every history from key faithfulness (proved on the modelled argument graphs), captured-buffer invariant for every heap history + key-relation and history correspondence",
+      "hash_mutable (branch by branch, with CPython's systematic numeric hash), the cached-method decorators (per-instance "
+      "caches, capacity, ignore_args/extra_args, invalidation), the argument graphs of the cached make_operator (grids, ten "
+      "boundary-condition classes, axes, operator requests) and the heap of field buffers captured by interpolators and by a "
+      "PDE holding a field constant are modelled (Model/Cache.lean). 75 theorems: a cache whose key is faithful returns for "
+      "every history exactly what a fresh computation returns (cache_sound_of_faithful, events_sound_of_faithful: any "
+      "interleaving of calls, invalidations and evictions), and a key collision IS observable (cache_unsound_of_collision); "
+      "the current key derivation is faithful on the modelled graphs (bc/axis/bcs/opreq/grid_key_faithful: equal keys imply "
+      "equal class, side, rank, value arrays incl. dtype/shape/bytes, grid, ...), kwargs order independent; each repaired "
+      "derivation has a kernel-checked collision witness (Dirichlet/Neumann, -1/-2, dtype-less arrays, grid bounds); cached "
+      "helpers read the field's current buffer after every history of writes, re-links and assignments, with the stale-read "
+      "witnesses of the pre-fix code. The harness compares the key relation of real object pairs with the model (incl. exact "
+      "CPython hashes of leaves), replays decorator and heap histories, and runs random histories of operator / interpolator / "
+      "collection / PDE / solve calls whose last call is repeated in a fresh process that has only imported pde.",
+      COMMON_NOTE + "Partial: ExpressionBC/UserBC and user classes are covered by the generic graph walk and the histories "
+      "only; sets and non-string dict keys are not modelled; normal_* conditions with operators that read other components' "
+      "ghost cells are excluded (their result is uninitialised memory, outside the property); numba's own caches are external.",
+      "DESIGN.md section 6, C04; notes/C04.md")
+
 # properties not (yet) decided by the machinery
 NOT_APPLICABLE = {}
 
